@@ -207,6 +207,28 @@ def _index_drawn_from_len_range(F, b, defs, get_call, _depth=0):
                                 # both lengths are equal (`if self.len != other.len { return false }`)
                                 if lr and len(set(lr)) == 1 and _len_equal_gate(parent, pdefs, bi, lr[0], precv):
                                     return True
+                                # .. or the enclosing function is a helper that is handed both lists, and every caller either hands it
+                                # the same list twice or calls it behind the test that the lengths are equal
+                                if lr and len(set(lr)) == 1 and lr[0].startswith("arg") and precv.startswith("arg") and "{closure" not in parent.path and _depth < 2:
+                                    try:
+                                        ia, ib = int(re.sub(r"\D.*$", "", lr[0][3:])), int(re.sub(r"\D.*$", "", precv[3:]))
+                                    except ValueError:
+                                        ia = ib = 0
+                                    sites = [(cb, cbi, ct) for cb in F.all_bodies() if cb.mir and cb.path != parent.path for cbi, ct in mir.calls(cb) if parent.path in (mir.callee(ct), mir.callee_def(ct))]
+                                    if ia >= 1 and ib >= 1 and sites:
+                                        good = True
+                                        for cb, cbi, ct in sites:
+                                            if len(ct["args"]) < max(ia, ib) or not (mir.is_place_op(ct["args"][ia - 1]) and mir.is_place_op(ct["args"][ib - 1])):
+                                                good = False
+                                                break
+                                            cd = mir.Defs(cb)
+                                            ka = _norm_key(mir.origin_key(cb, cd, ct["args"][ia - 1][1]))
+                                            kb = _norm_key(mir.origin_key(cb, cd, ct["args"][ib - 1][1]))
+                                            if ka != kb and not _len_equal_gate(cb, cd, cbi, ka, kb):
+                                                good = False
+                                                break
+                                        if good:
+                                            return True
     return False
 
 
